@@ -408,9 +408,11 @@ def run(ctx: Context, rep) -> None:
         root = None
         for c in ast.walk(arg):
             if isinstance(c, ast.Call) and ast.unparse(c.func).endswith(
-                    "_get_config_path") and c.args:
+                    "_get_config_path") and (c.args or c.keywords):
                 from sa.norm import canon as _canon
-                root = _canon(cr, c.args[0])
+                a0 = ctx.arg(c, 0, "path")
+                if a0 is not None:
+                    root = _canon(cr, a0)
         mk = [c for c in cr.calls() if isinstance(c.func, ast.Attribute) and
               c.func.attr == "mkdir"]
         wr = [c for c in cr.calls() if ctx.is_call(cr, c, method="write_config")]
@@ -419,10 +421,11 @@ def run(ctx: Context, rep) -> None:
                 root.startswith(_canon(cr, w.func.value)) for w in wr)
         ds_t = ctx.res.infer(cr, ast.parse(root.rsplit(".", 1)[0],
                                            mode="eval").body) if root and "." in root else None
-        rep.ob("C08.create", bool(same) and root.endswith(".path") and
+        rep.ob("C08.create", bool(same) and root is not None and
+               root.endswith(".path") and
                ds_t is not None and ds_t.name.endswith("Dataset"),
                loc=cr.loc(t), where=cr.qualname,
-               construct=f"tested root {root[:60]}; mkdir on "
+               construct=f"tested root {(root or '<none>')[:60]}; mkdir on "
                f"{[ast.unparse(m.func.value) for m in mk]}",
                message="the existence test looks at the same (resolved) "
                "directory that is created and written")
